@@ -310,6 +310,23 @@ def context_wrap(ctx, name, inner):
         return f"let {name}_v; {{ {name}_v = {inner}; }} export const {name} = {name}_v;", "value"
     if ctx == "loop":
         return f"const {name}_r = []; for (const i of [0]) {{ {name}_r.push({inner}); }} export const {name} = {name}_r[0];", "value"
+    # the site evaluated twice, the FIRST result observed afterwards ($iter.v = 1 marks the later evaluation: whatever
+    # a call returns then is a stale marker that must not reach the first vnode)
+    if ctx == "loop_first":
+        return (f"const {name}_r = []; for (const i of [0, 1]) {name}_r.push(($iter.v = i, {inner})); $iter.v = 0; "
+                f"export const {name} = () => {name}_r[0];"), "thunk"
+    if ctx == "while_first":
+        return (f"const {name}_r = []; let {name}_i = 0; while ({name}_i < 2) {name}_r.push(($iter.v = {name}_i++, {inner})); $iter.v = 0; "
+                f"export const {name} = () => {name}_r[0];"), "thunk"
+    if ctx == "calls_first":
+        return (f"function {name}_f() {{ return {inner}; }} const {name}_0 = {name}_f(); $iter.v = 1; {name}_f(); $iter.v = 0; "
+                f"export const {name} = () => {name}_0;"), "thunk"
+    if ctx == "field_first":
+        return (f"class {name}_K {{ f = {inner}; }} const {name}_0 = new {name}_K(); $iter.v = 1; new {name}_K(); $iter.v = 0; "
+                f"export const {name} = () => {name}_0.f;"), "thunk"
+    if ctx == "param_first":
+        return (f"function {name}_f(p = {inner}) {{ return p; }} const {name}_0 = {name}_f(); $iter.v = 1; {name}_f(); $iter.v = 0; "
+                f"export const {name} = () => {name}_0;"), "thunk"
     if ctx == "if_unbraced":
         return f"let {name}_v; if (true) {name}_v = {inner}; export const {name} = {name}_v;", "value"
     raise ValueError("context " + ctx)
@@ -344,7 +361,7 @@ def render_vmodule(case, cx):
         if k == "site":
             return site_expr()
         if k == "assign":
-            return "a = " + (site_expr() if it["rhs"]["k"] == "site" else "$v(\"a2\")")
+            return it.get("x", "a") + " = " + (site_expr() if it["rhs"]["k"] == "site" else "$v(\"a2\")")
         if k == "arrow":
             return "() => " + item_expr(it["item"])
         if k == "arrowp":
@@ -366,8 +383,9 @@ def render_vmodule(case, cx):
             k = it["k"]
             if k in ("site", "assign"):
                 if k == "assign":
-                    cx.lets.add("a")
-                    cx.bind("a", {"t": "pvnode", "id": "pva"}, "let")
+                    x = it.get("x", "a")
+                    cx.lets.add(x)
+                    cx.bind(x, {"t": "pvnode", "id": "pva"}, "let")
                     cx.vals["a2"] = {"t": "pvnode", "id": "pva2"}
                 out.append(pad + item_expr(it) + ";")
             elif k == "plain":
@@ -511,6 +529,10 @@ def ts_type(t, nested=False):
 
 def ts_decl(d, exported=False):
     pre = "export " if exported else ""
+    if d["k"] == "tparam":
+        return ""                      # written on the setup function, see render_ts
+    if d["k"] == "class":
+        return f'{pre}class {d["name"]} {{}}'
     if d["k"] == "enum":
         ms = ", ".join(f"M{i} = 'v{i}'" if k == "str" else f"M{i} = {i}" for i, k in enumerate(d["kinds"]))
         return f'{pre}declare enum {d["name"]} {{ {ms} }}'
@@ -587,6 +609,9 @@ def render_ts(case):
         if shape == "spread_args":
             lines.append(f"const args: [any, any] = [{setup}, {{ props: ['u'] }}]")
             call = f"{callee}(...args)"
+        elif shape == "spread_args_one":
+            lines.append(f"const args1: [any] = [{setup}]")
+            call = f"{callee}(...args1)"
         elif shape == "nonfn_first":
             call = f"{callee}({{ setup() {{ return () => null }}, props: ['u'] }})"
         else:
@@ -668,7 +693,7 @@ def render_ts(case):
                 "exports": [{"name": "C", "kind": "value"}], "pragmas": [], "other_imports": {}}
     place = case.get("place", "before")
     exported = place.startswith("exported")
-    decls = [ts_decl(d, exported) for d in case.get("decls", [])]
+    decls = [x for x in (ts_decl(d, exported) for d in case.get("decls", [])) if x]
     fn_form = None
     if kind in ("props", "rtype"):
         pf = case.get("pform", "plain")
@@ -685,6 +710,9 @@ def render_ts(case):
             else f'(props: {{ a?: string }}, ctx)'
     else:
         raise ValueError("ts case " + kind)
+    tps = [d["name"] for d in case.get("decls", []) if d["k"] == "tparam"]
+    if tps and not fn_form:
+        params = "<" + ", ".join(f"{n} extends string" for n in tps) + ",>" + params
     call = f"defineComponent({fn_form})" if fn_form else f"defineComponent({params} => () => null)"
     if place in ("before", "exported_before"):
         lines += decls + [f"export const C = {call}"]
@@ -752,6 +780,7 @@ def render_case(case):
         body += render_vmodule(case, cx)
         exports.append({"name": "$all", "kind": "value"})
         cx.env["$out"] = {"k": "value", "rv": {"t": "obj", "es": []}}
+    joinnext = False
     for it in case.get("items", []):
         k = it["k"]
         if k == "export_jsx":
@@ -768,8 +797,17 @@ def render_case(case):
                 exports.append(ex)
         elif k == "comment":
             body.append(it["text"])
+        elif k == "sameline":
+            # a comment on the line of the previous statement, and the next statement (if any) on that line too
+            body[-1] = body[-1] + " " + it["text"] + " "
+            joinnext = True
+            continue
         else:
             raise ValueError("item kind " + k)
+        if joinnext and len(body) >= 2:
+            nxt = body.pop()
+            body[-1] = body[-1] + nxt
+        joinnext = False
     lines = list(case.get("head", []))
     lines += cx.imports + cx.prelude + body
     if cx.targets:
